@@ -338,7 +338,7 @@ func init() {
 					continue
 				}
 				call, ok := bin.X.(*ssa.Call)
-				if !ok || call.Call.StaticCallee() == nil || call.Call.StaticCallee().Name() != "GetCardinality" || call.Call.Args[0] != ssa.Value(wp.Params[0]) {
+				if !ok || call.Call.StaticCallee() == nil || call.Call.StaticCallee().Name() != "GetCardinality" || paramOfType(wp, roaringBitmapPtr) == nil || call.Call.Args[0] != ssa.Value(paramOfType(wp, roaringBitmapPtr)) {
 					continue
 				}
 				if k, ok := constUint(bin.Y); !ok || k != 0 || (bin.Op != token.LEQ && bin.Op != token.EQL) {
